@@ -157,11 +157,24 @@ def yamlLines (fs : List FileItems) : List String :=
   -- the writer forces `IMPORT_COREDEFS: false` and never fills `imports` (the closure is flattened into this one file)
   ["opt IMPORT_COREDEFS 0", "imports 0"] ++ (combinedSections fs).flatMap (fun s => s!"sec {s.1} {s.2.length}" :: s.2.map yItemStr)
 
+/-! ### paths (M9c) -/
+
+def segOf (s : String) : Seg := if s == "^" then .up else if s == "." then .cur else .name (natOf s)
+def segStr : Seg → String
+  | .up => "^" | .cur => "." | .name n => toString n
+
+def srcLine (x : Name × List Seg) : String := joinSp (toString x.1 :: x.2.map segStr)
+
 structure Case where
   id : String := ""
   autoPad : Bool := true
   items : List (Bool × Item) := []
   files : List FileItems := []           -- the same items file by file (FILE markers)
+  paths : List AbsPath := []             -- resolved path of each file (FILE markers), parallel to `files`
+  pkgDir : AbsPath := []
+  coreDirName : Nat := 0
+  envs : List Env := []                  -- the environments of the real compile runs
+  srcs : List String := []               -- `type_source` of every class of the real Python output
   yaml : List String := []               -- canonical lines of the real combined file
   hasYaml : Bool := false
   outcome : List String := []
@@ -264,6 +277,23 @@ def finishCase (T : Tables) (fmtDen : List (Name × Den)) (c : Case) : List Stri
     match firstDiff m2 c.reg2 with
     | some d => out := out ++ [s!"{c.id} CORR diff combined.reparse {d}"]
     | none => pure ()
+  -- CORR 6: the path arithmetic — for every environment the real compiler was run in, the `core` marks and the
+  -- `type_source` strings the model derives from the resolved paths are the ones observed
+  if filesOk && !c.envs.isEmpty && c.paths.length == c.files.length then
+    let fp := c.files.zip c.paths
+    let disk : Disk :=
+      { pkgDir := c.pkgDir,
+        coreFiles := (fp.filter (·.1.core)).map (fun x => (x.2, x.1.items)),
+        files := (fp.filter (fun x => !x.1.core)).map (fun x => (x.2, x.1.items)) }
+    -- (the harness marks as core exactly the files parsed through `import_coredefs`, and sends them first)
+    for e in c.envs do
+      let derived := disk.fileItems c.coreDirName (storedRoot e)
+      if derived != c.files then
+        out := out ++ [s!"{c.id} CORR diff paths.core the core marks derived from the paths differ from the observed ones"]
+      if c.outcome == ["ok"] then
+        match firstDiff (sortStrs ((disk.sources (storedRoot e)).map srcLine)) (sortStrs c.srcs) with
+        | some d => out := out ++ [s!"{c.id} CORR diff paths.source {d}"]
+        | none => pure ()
   if out.isEmpty then out := [s!"{c.id} CORR ok"]
   -- PROP C04 on the implementation's observation
   let p04 :=
@@ -308,7 +338,18 @@ def step (st : St) (line : String) : St × List String :=
   | "T" :: "fmt" :: r => ({ st with fmtDen := r.map denOf }, [])
   | "T" :: r => ({ st with T := tableLine st.T r }, [])
   | ["CASE", id, ap, doc, skip] => ({ st with c := { id := id, autoPad := ap == "1", documented := doc == "1", skipHdr := skip == "1" } }, [])
-  | ["FILE", core] => ({ st with c := { st.c with files := st.c.files ++ [{ core := core == "1", items := [] }] } }, [])
+  | "FILE" :: core :: path =>
+    ({ st with c := { st.c with files := st.c.files ++ [{ core := core == "1", items := [] }],
+                                paths := if path.isEmpty then st.c.paths else st.c.paths ++ [path.map natOf] } }, [])
+  | "PKG" :: k :: path => ({ st with c := { st.c with coreDirName := natOf k, pkgDir := path.map natOf } }, [])
+  | "ENV" :: n :: r =>
+    let k := natOf n
+    let cwd := (r.take k).map natOf
+    match r.drop k with
+    | a :: segs => ({ st with c := { st.c with envs := st.c.envs ++
+        [{ cwd := cwd, root := { abs := a == "1", segs := segs.map segOf }, outDir := { abs := false, segs := [] } }] } }, [])
+    | [] => (st, [])
+  | "SRC" :: r => ({ st with c := { st.c with srcs := st.c.srcs ++ [joinSp r] } }, [])
   | "ITEM" :: r => match itemOf r with
     | some it =>
       let fs := match st.c.files.reverse with
